@@ -822,6 +822,73 @@ static void aliasing(Ctx& ctx, bool T) {
     }
 }
 
+// aliasing of the SCALAR operand: the scalar is a reference to an element of the array itself (a op= a[k], a op= a[k].re,
+// a op a[k], a[k] op a, a.slice(..) = a[k]).  Expected: the value a[k] had BEFORE the statement is used for every element.
+template<class A>
+static void elem_aliasing(Ctx& ctx) {
+    using E = typename Tr<A>::elem;
+    for (int n : {1, 2, 5, 64})
+        for (int kc = 0; kc < 3; ++kc) {
+            const int k = kc == 0 ? 0 : (kc == 1 ? n / 2 : n - 1);
+            if (!ctx.take("alias.elem", P().kv("type", Tr<A>::name()).kv("n", n).kv("k", k).kv("which", kc == 0 ? "first" : (kc == 1 ? "middle" : "last")))) continue;
+            long nz = 0;
+            for (int vs = 0; vs < 2; ++vs) {
+                // vs 0: tags 2,3,4,... (complex (v,-v-0.5)): no element is 0 or 1, so every operator changes a[k]; vs 1: the grid alphabet
+                const A a0 = vs ? make_arr<A>(n, n + kc, 1, Tr<A>::nv()) : tagged<E>(n, 1);
+                for_types<Add, Sub, Mul, Div>([&](auto opt) {
+                    using Op = typename decltype(opt)::type;
+                    {
+                        A a = a0;
+                        Op::cp(a, a[k]);   // the scalar parameter is bound to the element itself
+                        check_elems(ctx, "a op= a[k]", Op::c, a, n, [&](int i) { return view(a0[i]); }, [&](int) { return view(a0[k]); }, nz);
+                    }
+                    {
+                        A a = a0;
+                        auto r = Op::ap(a, a[k]);
+                        check_elems(ctx, "a op a[k]", Op::c, r, n, [&](int i) { return view(a0[i]); }, [&](int) { return view(a0[k]); }, nz);
+                        if (!bits_equal(a, a0)) ctx.fail("a op a[k]", "operand modified", "unchanged");
+                    }
+                    {
+                        A a = a0;
+                        auto r = Op::ap(a[k], a);
+                        check_elems(ctx, "a[k] op a", Op::c, r, n, [&](int) { return view(a0[k]); }, [&](int i) { return view(a0[i]); }, nz);
+                        if (!bits_equal(a, a0)) ctx.fail("a[k] op a", "operand modified", "unchanged");
+                    }
+                    if constexpr (Tr<A>::cplx) {   // real scalar that is the real part of an element
+                        const real_t old = a0[k].re;
+                        {
+                            A a = a0;
+                            Op::cp(a, a[k].re);
+                            check_elems(ctx, "a op= a[k].re", Op::c, a, n, [&](int i) { return view(a0[i]); }, [&](int) { return view(old); }, nz);
+                        }
+                        {
+                            A a = a0;
+                            auto r1 = Op::ap(a, a[k].re);
+                            auto r2 = Op::ap(a[k].re, a);
+                            check_elems(ctx, "a op a[k].re", Op::c, r1, n, [&](int i) { return view(a0[i]); }, [&](int) { return view(old); }, nz);
+                            check_elems(ctx, "a[k].re op a", Op::c, r2, n, [&](int) { return view(old); }, [&](int i) { return view(a0[i]); }, nz);
+                            if (!bits_equal(a, a0)) ctx.fail("a op a[k].re", "operand modified", "unchanged");
+                        }
+                    }
+                });
+                // scalar fill of a slice of a from an element of a
+                for (int st : {1, 2, -1}) {
+                    A a = a0;
+                    if (st > 0) a.slice(0, n, st) = a[k];
+                    else if (n >= 2) a.slice(n - 1, 0, -1) = a[k];
+                    bool ok = a.size() == n;
+                    for (int i = 0; ok && i < n; ++i) {
+                        const bool in = st > 0 ? (i % st == 0) : (n >= 2 && i >= 1);
+                        const E e = in ? a0[k] : a0[i];
+                        if (std::memcmp(&a[i], &e, sizeof(E)) != 0) ok = false;
+                    }
+                    if (!ok) ctx.fail("a.slice = a[k]", fmt("slice fill from a[%d] (n=%d, step %d) wrong", k, n, st), "designated positions = old a[k], others unchanged", P().kv("step", st));
+                }
+            }
+            if (nz >= 2) ctx.nontrivial();
+        }
+}
+
 // ------------------------------------------------------------------------------------------------ concatenation, selection
 template<class E>
 static std::vector<int> tags_of(const std::vector<int>& lens) {
@@ -2001,6 +2068,8 @@ int main(int argc, char** argv) {
     value_semantics<cmplx_t>(ctx);
     aliasing<arr_real>(ctx, T);
     aliasing<arr_cmplx>(ctx, T);
+    elem_aliasing<arr_real>(ctx);
+    elem_aliasing<arr_cmplx>(ctx);
     concat_same<real_t>(ctx);
     concat_same<cmplx_t>(ctx);
     concat_mixed(ctx);
